@@ -170,7 +170,33 @@ pub fn closure_label_injective<S: Src>(s: &mut S) {
     s.reached("c06.closure_label_injective");
 }
 
+/// wider index space: function index 0..=63, card paths of three sub-indices 0..=255
+pub fn closure_label_injective_wide<S: Src>(s: &mut S) {
+    let f1 = s.below(64) as usize;
+    let f2 = s.below(64) as usize;
+    let p1 = [s.u8() as u32, s.u8() as u32, s.u8() as u32];
+    let p2 = [s.u8() as u32, s.u8() as u32, s.u8() as u32];
+    s.assume(f1 != f2 || p1 != p2);
+    let h1 = CardIndex::from_slice(f1, &p1).as_handle();
+    let h2 = CardIndex::from_slice(f2, &p2).as_handle();
+    assert!(h1 != h2, "C06.label.distinct_closure_sites_get_distinct_labels");
+    s.reached("c06.closure_label_injective_wide");
+}
+
+/// a closure label (site label ^ closure mask) never equals the label of a function
+/// (Handle::from_u64(function index)) of the same program
+pub fn closure_label_vs_function_label<S: Src>(s: &mut S) {
+    let f = s.below(64) as usize;
+    let p = [s.u8() as u32, s.u8() as u32];
+    let g = s.u8() as u64;
+    let clo = CardIndex::from_slice(f, &p).as_handle() + Handle::from_u64(0xEFEFEFEF);
+    assert!(clo != Handle::from_u64(g), "C06.label.closure_label_differs_from_every_function_label");
+    s.reached("c06.closure_label_vs_function_label");
+}
+
 crate::harnesses! {
+    c06_closure_label_injective_wide / 14 => closure_label_injective_wide;
+    c06_closure_label_vs_function_label / 12 => closure_label_vs_function_label;
     #[kani::stub(alloc::fmt::format, crate::stub_format)]
     c06_capture_off0_idx0 / 18 => capture_slot::<_, 0, 0>;
     #[kani::stub(alloc::fmt::format, crate::stub_format)]
